@@ -33,9 +33,11 @@ Definition ellipse_contains (s : ellipse) (p : coord) : bool :=
   if negb (rleb (hdist (e_center s) p) radius) then false
   else negb (in_holes (e_holes s) p).
 
+(* after repair D36 the bearing is compared with the angle range modulo 360:
+   `(bearing - angle_min) % 360 > angle_max - angle_min` rejects *)
 Definition ring_contains (s : ring) (p : coord) : bool :=
   if rltb (r_amax s - r_amin s) 360
-     && negb (rleb (r_amin s) (bearing (r_center s) p) && rleb (bearing (r_center s) p) (r_amax s))
+     && rltb (r_amax s - r_amin s) (Rmod (bearing (r_center s) p - r_amin s) 360)
   then false
   else
     let radius := hdist (r_center s) p in
